@@ -528,6 +528,49 @@ class Harness:
         self.settle()
         return err
 
+    def start_eager_resume(self, hold_s=0.25):
+        """start(); when the run pauses (a fault under WARN_AND_PAUSE), a STOP listener is still busy for hold_s
+        seconds while this thread resumes with start() as soon as it reads run_state == STOPPED - what a user
+        interface thread does.  Returns the error of the second start() (None when it was accepted / not needed)."""
+        from pydsol.core.simulator import RunState
+        sim = self.sim
+        seen, resumed = threading.Event(), threading.Event()
+        prev = self.rec.hooks.get("STOP")
+
+        def hook(entry):
+            if prev is not None:
+                prev(entry)
+            if not seen.is_set():
+                seen.set()
+                resumed.wait(hold_s)
+        self.rec.hooks["STOP"] = hook
+        err2 = None
+        try:
+            sim.start()
+            deadline = _time.monotonic() + LIVENESS_S
+            while not seen.is_set() and _time.monotonic() < deadline:
+                if self.status() == "quiet":
+                    break
+                _time.sleep(0)
+            if seen.is_set():
+                while sim.run_state != RunState.STOPPED and sim.run_state != RunState.ENDED \
+                        and _time.monotonic() < deadline:
+                    _time.sleep(0)
+                if sim.run_state == RunState.STOPPED:
+                    try:
+                        sim.start()
+                    except Exception as e:
+                        err2 = e
+                resumed.set()
+        finally:
+            resumed.set()
+            if prev is None:
+                self.rec.hooks.pop("STOP", None)
+            else:
+                self.rec.hooks["STOP"] = prev
+        self.last_status = self.settle(allow_limbo=True)
+        return err2
+
     def start_stop_at_time_change(self, n, starter=("start",)):
         """start (or a bounded run); a TIME_CHANGED listener calls stop() at the n-th time change from now (the
         'pause when the clock reaches ...' control of a user interface).  Returns the error of either command."""
